@@ -416,11 +416,14 @@ func refOf(nav NodeNavigator) int {
 
 // vContext picks a nondeterministic context node of the document: any existing
 // slot, or (when A > 0) any existing attribute of an element slot.
-func vContext(doc *symDoc) (cur, attr int) {
-	cur = vInt("ctx", 0, doc.N-1)
+func vContext(doc *symDoc) (cur, attr int) { return vContextNamed(doc, "") }
+
+// vContextNamed: like vContext with input names ctx<tag>, ctxa<tag>.
+func vContextNamed(doc *symDoc, tag string) (cur, attr int) {
+	cur = vInt("ctx"+tag, 0, doc.N-1)
 	attr = -1
 	if doc.A > 0 {
-		attr = vInt("ctxa", -1, doc.A-1)
+		attr = vInt("ctxa"+tag, -1, doc.A-1)
 	}
 	cur = vConc(cur)
 	attr = vConc(attr)
